@@ -367,7 +367,9 @@ class ChkProvider(CheckTimerProvider):
         return Countdown.from_millis(self.ms)
 
 
-def tid_s(t: TransactionId) -> str:
+def tid_s(t) -> str:
+    if t is None:
+        return "None"
     return f"{bfs(t.source_id)}:{bfs(t.seq_num)}"
 
 
@@ -611,8 +613,10 @@ class World:
             fl = None
             if a.get("floc", "-") != "-":
                 fl = EntityIdTlv(bf(a["floc"]).as_bytes)
-            p = FinishedPdu(conf, FinishedParams(DeliveryCode(int(a["deliv"])), FileStatus(int(a["fstat"])),
-                                                 ConditionCode(int(a["cond"])), fault_location=fl))
+            p = FinishedPdu(conf, FinishedParams(condition_code=ConditionCode(int(a["cond"])),
+                                                 delivery_code=DeliveryCode(int(a["deliv"])),
+                                                 file_status=FileStatus(int(a["fstat"])),
+                                                 fault_location=fl))
         elif kind == "ack":
             p = AckPdu(conf, DirectiveType(int(a["of"])), ConditionCode(int(a["cond"])),
                        TransactionStatus(int(a["tstat"])))
